@@ -142,6 +142,27 @@ type discAnalysis struct {
 	ctxInit bool
 	impls []*types.Named // implementation types reachable through an embedded interface (baseScreen -> tScreen)
 	waitSites map[string]bool // C06: wg.Wait call sites -> reached only with the lock released
+	closeSites map[string]*chanSite // close(ch) sites -> lock definitely held there
+	blockSites map[string]*chanSite // blocking channel operations -> lock definitely NOT held there
+}
+
+// chanSite: a channel operation with the lock state it is reached in
+type chanSite struct {
+	Fn   *ssa.Function
+	Ok   bool
+	Pos  token.Pos
+	Chan string
+}
+
+func (d *discAnalysis) chanSite(m map[string]*chanSite, key string, fn *ssa.Function, ok bool, pos token.Pos, ch string) {
+	if m == nil {
+		return
+	}
+	if s, seen := m[key]; seen {
+		s.Ok = s.Ok && ok
+		return
+	}
+	m[key] = &chanSite{Fn: fn, Ok: ok, Pos: pos, Chan: ch}
 }
 
 func (d *discAnalysis) site(name string, ok bool, src string, pos token.Pos) {
@@ -308,8 +329,30 @@ func (d *discAnalysis) analyse(fn *ssa.Function, in heldSet) heldSet {
 				}
 			}
 			switch x := ins.(type) {
+			case *ssa.Send:
+				d.chanSite(d.blockSites, fmt.Sprintf("%s.%s/blocking[send:%s]/not-holding-lock", d.lc.Type, name, chanName(x.Chan)), fn, !cur.mayHeld(), x.Pos(), chanName(x.Chan))
+			case *ssa.UnOp:
+				if x.Op == token.ARROW {
+					d.chanSite(d.blockSites, fmt.Sprintf("%s.%s/blocking[recv:%s]/not-holding-lock", d.lc.Type, name, chanName(x.X)), fn, !cur.mayHeld(), x.Pos(), chanName(x.X))
+				}
+			case *ssa.Select:
+				if x.Blocking {
+					var cs []string
+					for _, st := range x.States {
+						dir := "recv:"
+						if st.Dir == types.SendOnly {
+							dir = "send:"
+						}
+						cs = append(cs, dir+chanName(st.Chan))
+					}
+					d.chanSite(d.blockSites, fmt.Sprintf("%s.%s/blocking[%s]/not-holding-lock", d.lc.Type, name, strings.Join(cs, ",")), fn, !cur.mayHeld(), x.Pos(), strings.Join(cs, ","))
+				}
 			case *ssa.Defer:
 				callee := x.Common().StaticCallee()
+				if b, isB := x.Common().Value.(*ssa.Builtin); isB && b.Name() == "close" {
+					// a deferred close runs at function exit; the lock state there is not tracked: count as not serialised
+					d.chanSite(d.closeSites, fmt.Sprintf("%s.%s/close[%s]", d.lc.Type, name, chanName(x.Common().Args[0])), fn, false, x.Pos(), chanName(x.Common().Args[0]))
+				}
 				if isMutexMethod(callee, "Unlock") {
 					cur = cur.deferUnlock()
 				} else if isMutexMethod(callee, "Lock") {
@@ -362,6 +405,9 @@ func (d *discAnalysis) analyse(fn *ssa.Function, in heldSet) heldSet {
 			case *ssa.Call:
 				cc := x.Common()
 				callee := cc.StaticCallee()
+				if b, isB := cc.Value.(*ssa.Builtin); isB && b.Name() == "close" {
+					d.chanSite(d.closeSites, fmt.Sprintf("%s.%s/close[%s]", d.lc.Type, name, chanName(cc.Args[0])), fn, !cur.mayNotHeld(), x.Pos(), chanName(cc.Args[0]))
+				}
 				if d.waitSites != nil && callee != nil && callee.String() == "(*sync.WaitGroup).Wait" {
 					k := fmt.Sprintf("%s.%s/wait-not-holding-lock#%s", d.lc.Type, name, ord("call", ins))
 					ok, seen := d.waitSites[k]
@@ -496,6 +542,9 @@ func RunDiscipline(run *PropRun, e *Engine, lc *LockClass) {
 	}
 	named := tm.Type().(*types.Named)
 	d := &discAnalysis{e: e, lc: lc, named: named, sites: map[string]*discSite{}, memo: map[string]heldSet{}, inprog: map[string]bool{}}
+	if !lc.BalanceOnly {
+		d.closeSites = map[string]*chanSite{}
+	}
 	// every field classified?
 	st := named.Underlying().(*types.Struct)
 	for i := 0; i < st.NumFields(); i++ {
@@ -553,8 +602,129 @@ func RunDiscipline(run *PropRun, e *Engine, lc *LockClass) {
 		g := run.AddObligation(n, "discipline", BoolT(s.Ok), s.Src+" ("+e.posStr(s.Pos)+")")
 		g.Pos = e.posStr(s.Pos)
 	}
+	// close(ch) of one of the screen's own channels: closing twice is a runtime fault, so every such close is either
+	// serialised by the screen lock (and then guarded by state the same critical section updates - a functional
+	// clause of the closing method) or sits in a function that only runs through sync.Once
+	stf := map[string]bool{}
+	for i := 0; i < st.NumFields(); i++ {
+		stf[st.Field(i).Name()] = true
+	}
+	var cks []string
+	for k := range d.closeSites {
+		cks = append(cks, k)
+	}
+	sort.Strings(cks)
+	for _, k := range cks {
+		cs := d.closeSites[k]
+		if !stf[cs.Chan] {
+			continue
+		}
+		once := onlyThroughOnce(e, cs.Fn)
+		how := "with the screen lock held"
+		if once {
+			how = "in a function that only runs through sync.Once"
+		}
+		g := run.AddObligation(k+"/at-most-once", "discipline", BoolT(cs.Ok || once),
+			fmt.Sprintf("close(%s) in %s is executed %s; otherwise two concurrent (or repeated) calls close the channel twice, a runtime fault (%s)", cs.Chan, fnShort(cs.Fn), how, e.posStr(cs.Pos)))
+		g.Pos = e.posStr(cs.Pos)
+	}
 	run.Extra["discipline_sites_"+lc.Type] = len(names)
 	run.Extra["methods_analysed_"+lc.Type] = len(d.memo)
+}
+
+// onlyThroughOnce: fn (or the function literal it is) is referenced only as the argument of (*sync.Once).Do
+func onlyThroughOnce(e *Engine, fn *ssa.Function) bool {
+	if fn == nil || fn.Pkg == nil {
+		return false
+	}
+	isOnceArg := func(v ssa.Value) bool {
+		refs := v.Referrers()
+		if refs == nil || len(*refs) == 0 {
+			return false
+		}
+		for _, r := range *refs {
+			c, ok := r.(*ssa.Call)
+			if _, dbg := r.(*ssa.DebugRef); dbg {
+				continue
+			}
+			if !ok {
+				return false
+			}
+			callee := c.Common().StaticCallee()
+			if callee == nil || callee.String() != "(*sync.Once).Do" {
+				return false
+			}
+		}
+		return true
+	}
+	found := false
+	var scan func(f *ssa.Function) bool
+	scan = func(f *ssa.Function) bool {
+		for _, b := range f.Blocks {
+			for _, in := range b.Instrs {
+				switch x := in.(type) {
+				case ssa.CallInstruction:
+					if x.Common().StaticCallee() == fn {
+						// a direct call: only the synthetic bound-method wrapper of fn itself may do that
+						if !(f.Synthetic != "" && strings.HasPrefix(f.Name(), fn.Name()+"$bound")) {
+							return false
+						}
+					}
+				}
+				if mc, ok := in.(*ssa.MakeClosure); ok {
+					if tf, ok := mc.Fn.(*ssa.Function); ok {
+
+						if tf == fn || (tf.Synthetic != "" && tf.Name() == fn.Name()+"$bound" && tf.Signature.Recv() == nil && (tf.Object() != nil && tf.Object() == fn.Object() || boundOf(tf) == fn)) {
+							if !isOnceArg(mc) {
+								return false
+							}
+							found = true
+						}
+					}
+				}
+			}
+		}
+		for _, af := range f.AnonFuncs {
+			if !scan(af) {
+				return false
+			}
+		}
+		return true
+	}
+	for _, m := range fn.Pkg.Members {
+		switch x := m.(type) {
+		case *ssa.Function:
+			if !scan(x) {
+				return false
+			}
+		case *ssa.Type:
+			for _, t := range []types.Type{x.Type(), types.NewPointer(x.Type())} {
+				ms := e.Prog.MethodSets.MethodSet(t)
+				for i := 0; i < ms.Len(); i++ {
+					if f := e.Prog.MethodValue(ms.At(i)); f != nil && f.Pkg == fn.Pkg && f.Synthetic == "" {
+						if !scan(f) {
+							return false
+						}
+					}
+				}
+			}
+		}
+	}
+	return found
+}
+
+// boundOf: the method a synthetic bound-method closure (t.m as a value) calls
+func boundOf(w *ssa.Function) *ssa.Function {
+	for _, b := range w.Blocks {
+		for _, in := range b.Instrs {
+			if c, ok := in.(ssa.CallInstruction); ok {
+				if f := c.Common().StaticCallee(); f != nil {
+					return f
+				}
+			}
+		}
+	}
+	return nil
 }
 
 // accessesMemory: a field address counts as an access only if something is read or written through it
